@@ -59,7 +59,7 @@ func (seg Segment) Raycast(point Point) RaycastResult {
 	}
 
 	// do the actual raycast here.
-	for p.Y == a.Y || p.Y == b.Y {
+	for (p.Y == a.Y || p.Y == b.Y) && p.Y != math.Inf(1) {
 		p.Y = math.Nextafter(p.Y, math.Inf(1))
 	}
 	if a.Y < b.Y {
